@@ -185,6 +185,52 @@ class HTMLTranslator(html4css1.HTMLTranslator):
 
         return super().starttag(node, tagname, suffix, **attributes)  # type: ignore[no-any-return]
 
+    # What the formula converter of docutils is expected to produce.
+    _MATH_ELEMENTS = frozenset(['span', 'i', 'b', 'sub', 'sup', 'br', 'div', 'table', 'tr', 'td', 'a'])
+    _MATH_ATTRIBUTE_RE = {'class': re.compile(r'^[\w -]*$'), 
+                          'style': re.compile(r'^[\w -]*:[\w #.%-]*;?$'),
+                          'href': re.compile(r'^(https?://|#)[^\s"\'<>]*$')}
+
+    def visit_math(self, node: nodes.Node) -> None:
+        # The converter copies the argument of commands like \text{}, \colorbox{} or \href{}
+        # to its output as it is: text of the formula could become markup. Check what comes out,
+        # and show the source of the formula when it is not what a formula is made of.
+        start = len(self.body)
+        try:
+            super().visit_math(node)
+        except nodes.SkipChildren:
+            pass
+        output = ''.join(self.body[start:])
+        if not self._is_formula_markup(output):
+            del self.body[start:]
+            self.body.append(self.starttag(node, 'tt', suffix='', classes=['math']))
+            self.body.append(self.encode(node.astext()))
+            self.body.append('</tt>')
+        raise nodes.SkipChildren()
+
+    @classmethod
+    def _is_formula_markup(cls, html: str) -> bool:
+        from xml.dom import minidom
+        try:
+            dom = minidom.parseString(f'<div>{html}</div>'.encode('utf-8'))
+        except Exception:
+            return False
+        todo = [dom.documentElement]
+        while todo:
+            e = todo.pop()
+            for child in e.childNodes:
+                if child.nodeType == child.ELEMENT_NODE:
+                    todo.append(child)
+                elif child.nodeType not in (child.TEXT_NODE,):
+                    return False
+            if e.tagName not in cls._MATH_ELEMENTS:
+                return False
+            for name, value in e.attributes.items():
+                check = cls._MATH_ATTRIBUTE_RE.get(name)
+                if check is None or not check.match(value):
+                    return False
+        return True
+
     def footnote_backrefs(self, node: nodes.Node) -> None:
         # starttag() prefixes the ids of the footnote references with 'rst-':
         # the links leading back to them are written without it and must agree.
